@@ -384,6 +384,22 @@ class C13Exec(execs.PyExec):
             tot = sum(w for _, w in fin)
             if abs(float(g.sum()) - tot) > 1e-9:
                 msgs.append("2-D grid of SparselyBin x SparselyBin sums to %r, the data weigh %r" % (float(g.sum()), tot))
+            # cell by cell: column = x index - lowest x index, row = y index - lowest y index (gaps stay empty)
+            xi = sorted(s2.bins)
+            yi = sorted(j for b in s2.bins.values() for j in b.bins)
+            if xi and yi:
+                x0, y0 = xi[0], yi[0]
+                if tuple(np.asarray(g).shape) != (yi[-1] - y0 + 1, xi[-1] - x0 + 1):
+                    msgs.append("2-D grid of SparselyBin x SparselyBin has shape %r for x indices %d..%d and y indices %d..%d"
+                                % (tuple(np.asarray(g).shape), x0, xi[-1], y0, yi[-1]))
+                else:
+                    for i in range(x0, xi[-1] + 1):
+                        for j in range(y0, yi[-1] + 1):
+                            wantc = sum(w for d, w in fin if math.floor(d[0] / 0.5) == i and math.floor(d[1] / 0.5) == j)
+                            if float(g[j - y0, i - x0]) != wantc:
+                                msgs.append("2-D grid of SparselyBin x SparselyBin: cell (x index %d, y index %d) holds %r, the data give %r"
+                                            % (i, j, float(g[j - y0, i - x0]), wantc))
+                                break
             sx = s2.project_on_x()
             for i, b in sx.bins.items():
                 wantx = sum(w for d, w in fin if math.floor(d[0] / 0.5) == i)
@@ -480,8 +496,49 @@ def _c13(py, replies):
     return py.msgs[0] if py.msgs else None
 
 
+EDGE_CFG = [(10, 0.0, 1.0), (5, -1.0, 2.0), (7, 0.1, 0.8), (50, 0.0, 10.0), (30, 0.0, 7.0), (12, -0.3, 0.9), (9, 0.0, 0.9), (3, 0.0, 1.0)]
+
+
+def point_lookup_check(p):
+    """Implementation-level, on bin widths that are not exactly representable: the content reported for a point x
+    (bin_entries(xvalues=[x])) is the content of the bin where fill put x — for x on and next to every edge (this is apart from
+    known finding C13-bin-near-edge, which concerns sub-ranges low..high, not point lookups)."""
+    import numpy as np
+
+    hg = gen.hg
+    n, lo, hi = EDGE_CFG[(len(p["xs"]) * 5 + len(p["queries"])) % len(EDGE_CFG)]
+    xs = []
+    for i in range(n + 1):
+        for e in (lo + i * (hi - lo) / n, lo + i * ((hi - lo) / n), round(lo + i * (hi - lo) / n, 10)):
+            xs += [float(e), float(np.nextafter(e, -np.inf)), float(np.nextafter(e, np.inf))]
+    try:
+        for x in xs:
+            h = hg.Bin(n, lo, hi, lambda d: d)
+            h.fill(x, 2.0)
+            want = 2.0 if lo <= x < hi else 0.0
+            got = [float(v) for v in h.bin_entries(xvalues=[x])]
+            if got != [want]:
+                where = [i for i, v in enumerate(h.values) if v.entries]
+                return ["Bin(%d, %r, %r): fill(%r) went to bin %r, but bin_entries(xvalues=[%r]) reports %r instead of %r"
+                        % (n, lo, hi, x, where, x, got, [want])]
+        h = hg.Bin(n, lo, hi, lambda d: d)
+        for x in xs:
+            h.fill(x)
+        got = [float(v) for v in h.bin_entries(xvalues=xs)]
+        want = [float(h.values[h.bin(x)].entries) if h.bin(x) >= 0 else 0.0 for x in xs]
+        if got != want:
+            i = [k for k in range(len(xs)) if got[k] != want[k]][0]
+            return ["Bin(%d, %r, %r) filled on and next to its edges: bin_entries(xvalues=...) reports %r for x=%r, whose bin holds %r"
+                    % (n, lo, hi, got[i], xs[i], want[i])]
+    except Exception as e:  # noqa: BLE001
+        return ["Bin(%d, %r, %r) point lookups next to edges: %s: %s" % (n, lo, hi, type(e).__name__, str(e)[:200])]
+    return []
+
+
 def oracle(case, py, replies):
-    return common.eval_expect(case, py, replies)
+    from runner import dec
+
+    return common.eval_expect(case, py, replies) + point_lookup_check(dec(case["params"]))
 
 
 def stats(case, py, replies):
